@@ -17,10 +17,11 @@ import (
 type c17Case struct {
 	Brokers int    `json:"brokers"`
 	Ops     []msOp `json:"ops"`
+	Scale   bool   `json:"scale,omitempty"` // hundreds of keys: etcd key sets are not read after every op
 }
 
 func c17RunOne(t *testing.T, e *msEtcd, cs c17Case) msRun {
-	return msRunBoth(t, e, cs.Brokers, cs.Ops)
+	return msRunBothOpt(t, e, cs.Brokers, cs.Ops, !cs.Scale)
 }
 
 // first op index at which the two stores answered differently, -1 if none
@@ -49,7 +50,7 @@ func c17Classify(cs c17Case, at int) string {
 }
 
 func TestVerifC17(t *testing.T) {
-	rep := vNewReport("C17", "generated sequences (4-28 ops over all 16 Store operations, 1-6 topic and 1-5 group names, 30% of those cases with names containing '/', ':', '%', unicode, dot segments or empty) run on the real InMemoryStore and the real EtcdStore (embedded etcd); every fourth case is an overwrite family (for committed offset+metadata, next offset, topic config, group, partition count on one key: value->different, value->zero/empty, zero->value, same again, delete->re-create, full read-back after every write); every fourth case is a two-topic scenario: valid names where one is a strict string prefix of the other (a / a-b / a.b / a_1 / a0 ...), durable state on both, then DeleteTopic / re-create / growth / config / offsets on one, each followed by a full read-back of the other; the real etcd key set is read through the client after every op; a case is non-trivial when it has a successful CreateTopic, a commit or group put, and a later read that returns stored data; distinct = distinct canonical (brokers, op list)")
+	rep := vNewReport("C17", "generated sequences (4-28 ops over all 16 Store operations, 1-6 topic and 1-5 group names, 30% of those cases with names containing '/', ':', '%', unicode, dot segments or empty) run on the real InMemoryStore and the real EtcdStore (embedded etcd); every fourth case is an overwrite family (for committed offset+metadata, next offset, topic config, group, partition count on one key: value->different, value->zero/empty, zero->value, same again, delete->re-create, full read-back after every write); every fourth case is a two-topic scenario: valid names where one is a strict string prefix of the other (a / a-b / a.b / a_1 / a0 ...), durable state on both, then DeleteTopic / re-create / growth / config / offsets on one, each followed by a full read-back of the other; the real etcd key set is read through the client after every op; plus 2 (thorough 12) scale cases per run: 150-300 committed offsets on one topic across groups x partitions, 150+ partitions, 150+ groups, 249-byte topic names and 254-byte group ids, then listings, DeleteTopic / DeleteConsumerGroup, reads of what must be gone and what must stay, re-creation; a case is non-trivial when it has a successful CreateTopic, a commit or group put, and a later read that returns stored data; distinct = distinct canonical (brokers, op list)")
 	e := msStartEtcd(t)
 	var coq, jsons []string
 	runOne := func(cs c17Case) {
@@ -76,7 +77,7 @@ func TestVerifC17(t *testing.T) {
 			rep.Hist("diverged")
 			shr := cs
 			shr.Ops = vShrink(cs.Ops, func(ops []msOp) bool {
-				rr := c17RunOne(t, e, c17Case{Brokers: cs.Brokers, Ops: ops})
+				rr := c17RunOne(t, e, c17Case{Brokers: cs.Brokers, Ops: ops, Scale: cs.Scale})
 				return c17Diverge(rr.im, rr.et) >= 0
 			})
 			rr := c17RunOne(t, e, shr)
@@ -88,7 +89,11 @@ func TestVerifC17(t *testing.T) {
 			rep.Fail("same-observable", c17Classify(shr, k),
 				fmt.Sprintf("op %d (%s): in-memory store answered %+v, etcd store answered %+v", k, msCoqOp(shr.Ops[k]), a[k], b[k]), shr)
 		}
-		coq = append(coq, fmt.Sprintf("mkCase17 %d %s %s %s %s", cs.Brokers, msCoqOps(cs.Ops), msCoqResList(im), msCoqResList(et), msCoqKeys(run.kvs)))
+		keys := "[]" // scale cases: answers only
+		if !cs.Scale {
+			keys = msCoqKeys(run.kvs)
+		}
+		coq = append(coq, fmt.Sprintf("mkCase17 %d %s %s %s %s", cs.Brokers, msCoqOps(cs.Ops), msCoqResList(im), msCoqResList(et), keys))
 		jsons = append(jsons, string(canon))
 	}
 	if rc := vReplayCase(); rc != nil {
@@ -125,7 +130,13 @@ func TestVerifC17(t *testing.T) {
 			runOne(cs)
 		}
 		r := vNewRand(vSeed())
-		n := vN(150, 2000)
+		// a handful of scale cases per run
+		for i := 0; i < vN(2, 12); i++ {
+			b, ops := msGenScale(r.Fork())
+			rep.Hist("names:scale")
+			runOne(c17Case{Brokers: b, Ops: ops, Scale: true})
+		}
+		n := vN(110, 2000)
 		for i := 0; i < n; i++ {
 			rr := r.Fork()
 			if i%4 == 3 {
